@@ -62,6 +62,12 @@ def c15_cases(tier, rng):
         c.rcpt(b"r@x", dict(notify=[b"NEVER"], rrvs=86400, orcpttype=b"RFC822", orcpt=b"o@x"))
         c.call("ext", hx(b"DSN")); c.call("ext", hx(b"SIZE"))
         benign.append(c.case())
+    # percent signs in every string-typed argument, with and without options: one line, the octets as given
+    for a in (b"50%%off@x", b"100%@x", b"u%example.org@relay.x", b"a%sb@x", b"%d%v@x", b"%"):
+        for mo, ro in ((None, None), (dict(size=5), None), (None, dict(notify=[b"NEVER"])), (dict(), dict())):
+            c = CC(exts=[b"8BITMIME", b"SIZE 100", b"DSN"]); c.call("hello", hx(b"h" + a)); c.mail(a, mo); c.rcpt(a, ro)
+            c.reply(OK); c.call("verify", hx(a))
+            benign.append(c.case())
     # HELO fallback: EHLO refused with 502
     c = CC(hello=b"502 5.5.1 no EHLO\r\n"); c.reply(b"250 peer\r\n"); c.mail(b"s@x", dict(size=5, ret=b"FULL")); c.rcpt(b"r@x", dict(notify=[b"NEVER"]))
     benign.append(c.case())
